@@ -202,6 +202,9 @@ func hybridCase(h hyb, k int) {
 			} else {
 				lib.Count("hybrid:decaps-low-order-error")
 				lib.Count("hybrid:decaps-low-order-error:" + name)
+				if k == 0 && h.xFirst && c.size == 32 {
+					lib.Sample(monKEM, lib.D("scheme", name, "op", "Decapsulate", "share", u, "class", pv.class, "err", err))
+				}
 			}
 		} else {
 			if err != nil {
